@@ -350,3 +350,127 @@ class Rewriter:
         if k < expect_min:
             raise AnchorLost('rewrite %s applied %d times, expected >= %d' % (label, k, expect_min))
         return new
+
+
+# ----------------------------------------------------------------------------- cfg evaluation
+def eval_cfg(pred, features, target=('target_has_atomic="64"', 'unix')):
+    """Evaluate the inside of #[cfg(...)] for a feature set.  Supports feature = "x", not(..),
+    all(..), any(..), windows, unix, test, kani, target_has_atomic = "64"."""
+    pred = pred.strip()
+    m = re.fullmatch(r'(not|all|any)\((.*)\)', pred, re.S)
+    if m:
+        op, inner = m.group(1), m.group(2)
+        parts, depth, cur = [], 0, ''
+        for ch in inner:
+            if ch == '(':
+                depth += 1
+            elif ch == ')':
+                depth -= 1
+            if ch == ',' and depth == 0:
+                parts.append(cur)
+                cur = ''
+            else:
+                cur += ch
+        if cur.strip():
+            parts.append(cur)
+        vals = [eval_cfg(p, features, target) for p in parts]
+        if op == 'not':
+            return not vals[0]
+        return all(vals) if op == 'all' else any(vals)
+    m = re.fullmatch(r'feature\s*=\s*"([^"]+)"', pred)
+    if m:
+        return m.group(1) in features
+    norm = re.sub(r'\s+', '', pred)
+    if norm in ('windows', 'test', 'kani'):
+        return False
+    if norm == 'unix':
+        return True
+    if norm == 'target_has_atomic="64"':
+        return True
+    raise AnchorLost('cfg predicate not understood: %r' % pred)
+
+
+def cfg_strip(src, features):
+    """Return `src` as the compiler sees it for `features`: every #[cfg(..)] attribute is removed,
+    together with the item / statement / field / arm it guards when the predicate is false."""
+    mask = code_mask(src)
+    out = []
+    i = 0
+    n = len(src)
+    removed = kept = 0
+    while i < n:
+        if mask[i] and src.startswith('#[cfg(', i):
+            close = match_close(src, mask, i + 1)          # the ']' of the attribute
+            pred = src[i + 6:close - 1]
+            # `pred` ends before the ')' that precedes ']'
+            j = close + 1
+            keep = eval_cfg(pred, features)
+            if keep:
+                kept += 1
+                i = j
+                continue
+            removed += 1
+            # doc comments and attributes stacked ABOVE the cfg attribute belong to the removed item too
+            text = ''.join(out)
+            while True:
+                ls = text.rstrip(' \t')
+                if not ls.endswith('\n'):
+                    break
+                prev_start = ls.rfind('\n', 0, len(ls) - 1) + 1
+                line = ls[prev_start:].strip()
+                if line.startswith('///') or (line.startswith('#[') and line.endswith(']')):
+                    text = ls[:prev_start]
+                else:
+                    break
+            out = [text]
+            # skip whitespace, comments and further attributes
+            while True:
+                while j < n and (src[j].isspace() or not mask[j]):
+                    j += 1
+                if src.startswith('//', j):
+                    j = src.find('\n', j)
+                    j = n if j < 0 else j
+                    continue
+                if src.startswith('#[', j):
+                    j = match_close(src, mask, j + 1) + 1
+                    continue
+                break
+            # skip the guarded thing
+            head = src[j:j + 40]
+            is_item = re.match(r'(pub(\([a-z]+\))?\s+)?(unsafe\s+)?(fn|impl|struct|enum|use|mod|extern|static|const|type|trait)\b', head) is not None
+            is_field = re.match(r'(pub(\([a-z]+\))?\s+)?\w+\s*:', head) is not None
+            depth = 0
+            angle = 0
+            while j < n:
+                if mask[j]:
+                    ch = src[j]
+                    if ch in OPEN:
+                        depth += 1
+                    elif ch in CLOSE:
+                        if depth == 0:
+                            break  # end of the enclosing block: the guarded thing was the last one
+                        depth -= 1
+                        if depth == 0 and ch == '}':
+                            k = j + 1
+                            while k < n and src[k] in ' \t':
+                                k += 1
+                            if k < n and src[k] in ',;':
+                                j = k
+                            j += 1
+                            break
+                    elif is_field and ch == '<':
+                        angle += 1
+                    elif is_field and ch == '>' and src[j - 1] != '-' and angle > 0:
+                        angle -= 1
+                    elif ch == ';' and depth == 0:
+                        j += 1
+                        break
+                    elif ch == ',' and depth == 0 and angle == 0 and not is_item:
+                        j += 1
+                        break
+                j += 1
+            i = j
+            continue
+        out.append(src[i])
+        i += 1
+    return ''.join(out), dict(cfg_sites_kept=kept, cfg_sites_removed=removed)
